@@ -45,6 +45,7 @@ Qed.
 Lemma lkid_init F : LKid init (rl_init false Dag g F).
 Proof.
   unfold LKid, rl_init. destruct (start_next Dag g) as [v|ts ch]; simpl; [discriminate|].
+  unfold enter. destruct (existsb prefail ts); simpl; [discriminate|].
   intros _. rewrite app_nil_r. split; [apply Permutation_refl|]. split; [rewrite log_of_ids; apply Permutation_refl|].
   split; [|apply incl_refl].
   intros x Hx Hn. exfalso. apply Hn. unfold ids_of. apply in_map_iff. exists x. split; [reflexivity|exact Hx].
@@ -126,6 +127,7 @@ Proof.
     destruct (failed x); [inversion Hr; subst; unfold LKid; simpl; discriminate|].
     destruct (calc_next Dag g (r_ch r) [run_task x]) as [vE|ts ch'];
       inversion Hr; subst; unfold LKid, enter; simpl; [discriminate|].
+    destruct (existsb prefail ts); simpl; [discriminate|].
     intros _. specialize (K Hn). destruct K as (K1 & K2 & K3 & K4).
     specialize (L Hn). destruct L as [_ L2].
     match goal with H : r_ph r = PGot |- _ => rewrite H in L2 end.
@@ -281,7 +283,8 @@ Proof.
     destruct (failed x); [inversion Hr; subst; left; simpl; discriminate|].
     destruct (calc_next Dag g (r_ch r) [run_task x]) as [vE|ts ch'];
       inversion Hr; subst; [left; simpl; discriminate|].
-    right. unfold enter in *. simpl in *. rewrite Le. simpl.
+    unfold enter in *. destruct (existsb prefail ts); [left; simpl; discriminate|].
+    right. simpl in *. rewrite Le. simpl.
     rewrite app_length in *. unfold log_of in *. rewrite map_length in *. lia.
 Qed.
 
